@@ -134,6 +134,42 @@ def handler (fn : String) : Option Handler :=
                 (if allAre vs true then "pass" else s!"fail verdicts-disagree {pair} contact-dist={cdist} got={vs}")
               else "skip near-touching"
         | none => "skip bad-args" }
+  | "sat_normal" | "sat_edge" | "it_cc" => some {
+      model := fun a => run (do
+        let he1 ← pv3; let he2 ← pv3; let m ← piso3
+        match fn with
+        | "sat_normal" => let r := satNormalOneway he1 he2 m; pure s!"{ff r.1} {fv3 r.2}"
+        | "sat_edge" => let r := satEdgeTwoway he1 he2 m; pure s!"{ff r.1} {fv3 r.2}"
+        | _ => pure (fb (intersectionTestCuboidCuboid m he1 he2))) a
+      oracle := fun a o => match run (do let he1 ← pv3; let he2 ← pv3; let m ← piso3; pure (he1, he2, m)) a with
+        | some (he1, he2, m) =>
+          let M := qiso3 m; let H1 := q3 he1; let H2 := q3 he2
+          if !unitQ M then "skip non-unit-rotation" else
+          let t : Rat := (1 / 1000000) * (1 + vmag H1 + vmag H2 + vmag M.t)
+          match satCuboids H1 Iso3.identity H2 M with
+          | none => "skip degenerate"
+          | some ex =>
+            if fn = "it_cc" then
+              withOut pbool o fun r =>
+                if ex > t && r then s!"fail intersecting-but-separated-by {ex.toF} (exact 15-axis SAT)"
+                else if ex < -t && !r then s!"fail disjoint-but-overlapping-by {ex.toF} (exact 15-axis SAT)"
+                else if rabs ex ≤ t then "skip near-touching" else "pass"
+            else
+              withOut (do let s ← pfo; let d ← pov3; pure (s, d)) o fun (s, d) =>
+                if !(FloatIO.isFinite s && finite3 d) then "fail nonfinite-output" else
+                let D := q3 d
+                if D.normSq == 0 then (if fn = "sat_edge" then "skip no-edge-axis" else "fail zero-axis") else
+                -- the reported value is the separation along the reported (unit) axis, and never exceeds the best axis
+                let a1 : List (V3 Rat) := [⟨1, 0, 0⟩, ⟨0, 1, 0⟩, ⟨0, 0, 1⟩]
+                let b1 : List (V3 Rat) := a1.map M.rot
+                let ra := ((a1.zip [H1.x, H1.y, H1.z]).map fun (u, h) => h * rabs (u.dot D)).foldl (· + ·) 0
+                let rb := ((b1.zip [H2.x, H2.y, H2.z]).map fun (u, h) => h * rabs (u.dot D)).foldl (· + ·) 0
+                let along := M.t.dot D - ra - rb
+                if !close D.normSq 1 1000 then "fail axis-not-unit"
+                else if rabs (along - q s) > t then s!"fail separation-along-reported-axis reported={s} exact={along.toF}"
+                else if q s > ex + t then s!"fail separation-exceeds-exact-SAT reported={s} exact={ex.toF}"
+                else "pass"
+        | none => "skip bad-args" }
   | "k_contact" => some {
       model := fun _ => some "oracle-only"
       oracle := fun a o => match run pKArgs a with
